@@ -126,6 +126,17 @@ package tensor
 //@ spec endCut(ap, slices, size, k, i) int decreases k = k <= 0 ? size : endCut(ap, slices, size, k-1, i) - (k-1 < i ? (ap.shape[k-1] - aEnd(ap.shape, slices, k-1)) * ap.strides[k-1] : 0)
 //@ spec maxOff(d, s, n) int decreases n = n <= 0 ? 0 : maxOff(d, s, n-1) + (d[n-1] - 1) * s[n-1]
 
+// the storage-outermost axis: only a step-1 restriction of that axis keeps a view one contiguous run
+//@ spec apOuter(ap) int = ((ap.o & ColMajor) == DataOrder(0) || isVec(ap.shape)) ? 0 : len(ap.shape) - 1
+//@ spec axisBreaks(ap, slices, j) bool = (!isnil(slAt(slices, j)) && !isVec(ap.shape) && j != apOuter(ap)) || aStep(ap.shape, slices, j) > 1
+
+//@ func tensor.MakeDataOrder
+//@   props C16
+//@   mode rank fs
+//@   ensures [one] len(fs) == 1 ==> retVal == fs[0]
+//@   ensures [two] len(fs) == 2 ==> retVal == (fs[0] | fs[1])
+//@   assigns nothing
+
 //@ func tensor.AP.S
 //@   props C02 C13
 //@   mode rank ap.shape, ap.strides
@@ -144,8 +155,11 @@ package tensor
 //@   ensures [shape] err == nil && ndEnd - ndStart != 1 && allRegular(sh, slices, n) ==> (forall i :: 0 <= i && i < n && !aDropped(sh, slices, i) ==> newAP.shape[nkept(sh, slices, i)] == aLen(sh, slices, i) && newAP.strides[nkept(sh, slices, i)] == aStride(ap, slices, i))
 //@   ensures [shape_axis0_ceil] err == nil && ndEnd - ndStart != 1 && n >= 1 && allNonEmpty(sh, slices, n) && aHasRem(sh, slices, 0) && !aDropped(sh, slices, 0) ==> newAP.shape[0] == aLen(sh, slices, 0)
 //@   ensures [shape_empty_range] err == nil && ndEnd - ndStart != 1 && n >= 1 && !aNonEmpty(sh, slices, 0) ==> newAP.shape[0] == 0
+//@   ensures [noncontig_flag] err == nil && ndEnd - ndStart != 1 ==> (((newAP.o & NonContiguous) != DataOrder(0)) <==> ((ap.o & NonContiguous) != DataOrder(0) || (exists j :: 0 <= j && j < n && axisBreaks(ap, slices, j))))
+//@   ensures [order_kept] err == nil && ndEnd - ndStart != 1 ==> (newAP.o & ColMajor) == (ap.o & ColMajor) && (newAP.o & Transposed) == (ap.o & Transposed)
 //@   ensures [unchanged] unchanged(ap.shape) && unchanged(ap.strides) && unchanged(slices)
 //@   assigns nothing
+//@   loop 0 invariant [order] (order & ColMajor) == (ap.o & ColMajor) && (order & Transposed) == (ap.o & Transposed) && (((order & NonContiguous) != DataOrder(0)) <==> ((ap.o & NonContiguous) != DataOrder(0) || (exists j :: 0 <= j && j < n && j < i && axisBreaks(ap, slices, j))))
 //@   loop 0 invariant [bounds] 0 <= i && i <= n && dims == n && err == nil && len(newShape) == n && len(newStrides) == n && fresh(newShape) && fresh(newStrides) && newShape.arr != newStrides.arr
 //@   loop 0 invariant [vals] forall j :: 0 <= j && j < n && j < i ==> newShape[j] == cLen(sh, slices, j) && newStrides[j] == aStride(ap, slices, j) && slValid(slAt(slices, j), ap.shape[j])
 //@   loop 0 invariant [rest] forall j :: 0 <= j && j < n && i <= j ==> newShape[j] == ap.shape[j]
